@@ -352,6 +352,27 @@ func (lc *linCtx) of(v ssa.Value) linExpr {
 				return z
 			}
 		}
+		// strings.Index / LastIndex (and the Byte / Rune forms): -1 <= r <= len(s) - len(sep) for a non-empty
+		// separator, -1 <= r <= len(s) otherwise (documented results)
+		switch P.calleeName(x.Common()) {
+		case "strings.Index", "strings.LastIndex", "strings.IndexByte", "strings.LastIndexByte", "strings.IndexRune", "strings.IndexAny", "strings.LastIndexAny":
+			if len(x.Call.Args) == 2 {
+				r := linVar("v:" + lc.id(v))
+				lc.vars[v] = r
+				ls := lc.lenVar(x.Call.Args[0])
+				upper := ls
+				if cs, ok := x.Call.Args[1].(*ssa.Const); ok && cs.Value != nil {
+					if cs.Value.Kind() == constant.String && len(constant.StringVal(cs.Value)) >= 1 {
+						upper = ls.add(linConst(1), -1)
+					}
+					if cs.Value.Kind() == constant.Int {
+						upper = ls.add(linConst(1), -1)
+					}
+				}
+				lc.facts = append(lc.facts, r.add(linConst(1), 1), geq(upper, r))
+				return r
+			}
+		}
 		if P.CallTo(x, "sort.Search") != nil && len(x.Call.Args) == 2 {
 			r := linVar("v:" + lc.id(v))
 			lc.vars[v] = r
